@@ -17,8 +17,8 @@ from pyvolutionary import Task, ContinuousVariable, EarlyStopping
 from pyvolutionary.abstract import OptimizationAbstract
 from pyvolutionary.models import BaseOptimizationConfig
 
-ALPHA = [0.5, 0.45, 0.4495, 0.449, 0.3, 0.6, 0.4489, 0.2]
-FES = [None, 0.3, 0.449]
+ALPHA = [0.5, 0.45, 0.4495, 0.449, 0.3, 0.6, 0.0, 0.2]
+FES = [None, 0.3, 0.0]
 ESS = [None, (0.001, 1), (0.001, 2), (0.001, 3), (0.06, 2), (0.0005, 1)]
 POP = 3
 
@@ -65,6 +65,11 @@ def run_scripted(script, mc, fe, es):
     k = stop_model(rates_h, mc, fe, es)
     if k is None:
         return "skip", None
+    # a history whose verdict flips when the rates move by a few ulp (|1 - mean fitness| computed in another summation
+    # order) does not decide the property: skip it.  Exact zeros stay exact, so `rate == fitness_error == 0` is kept.
+    for eps in (4e-15, -4e-15):
+        if stop_model([r * (1 + eps) for r in rates_h], mc, fe, es) != k:
+            return "fragile", None
     cfg = BaseOptimizationConfig(population_size=POP, max_cycles=mc, fitness_error=fe,
                                  early_stopping=None if es is None else EarlyStopping(min_delta=es[0], patience=es[1]))
     o = Scripted(cfg, list(script) + [0.97, 0.98, 0.99])
@@ -88,6 +93,7 @@ def run_scripted(script, mc, fe, es):
 def work(item, opts):
     n = 0
     skipped = 0
+    fragile = 0
     viol = []
     stops = {"max_cycles": 0, "fitness_error": 0, "early": 0}
     if "prefix" in item:
@@ -99,8 +105,9 @@ def work(item, opts):
                 for fe in FES:
                     for es in ESS:
                         kind, detail = run_scripted(script, mc, fe, es)
-                        if kind == "skip":
+                        if kind in ("skip", "fragile"):
                             skipped += 1
+                            fragile += kind == "fragile"
                             continue
                         n += 1
                         if kind != "ok" and len(viol) < 10:
@@ -120,14 +127,15 @@ def work(item, opts):
             fe = rng.choice([None, None, 0.1, script[rng.randrange(L)], 0.0])
             es = rng.choice([None, (rng.choice([1e-4, 1e-3, 1e-2, 0.5]), rng.randint(1, 6))])
             kind, detail = run_scripted(tuple(script), mc, fe, es)
-            if kind == "skip":
+            if kind in ("skip", "fragile"):
                 skipped += 1
+                fragile += kind == "fragile"
                 continue
             n += 1
             if kind != "ok" and len(viol) < 10:
                 viol.append({"key": {"component": "stop-rule", "kind": kind}, "detail": detail,
                              "case": [list(script), mc, fe, es]})
-    return {"n": n, "skipped": skipped, "viol": viol}
+    return {"n": n, "skipped": skipped, "fragile": fragile, "viol": viol}
 
 
 def check(prop, tier, seed):
@@ -143,11 +151,13 @@ def check(prop, tier, seed):
         items.append({"seed": f"{seed}/{k}", "n": n_rand // 32})
     res = runner.run_parallel("pvmon.props.c04", "work", items, {}, per_item_s=120)
     scripted = 0
+    fragile = 0
     for it, r in zip(items, res):
         if isinstance(r, Lost):
             rep.lost += 1
             continue
         scripted += r["n"]
+        fragile += r.get("fragile", 0)
         for v in r["viol"]:
             rep.violation(v["key"], v["detail"], replay={"kind": "scripted", "case": v["case"]})
     rep.evaluations += scripted
@@ -162,6 +172,7 @@ def check(prop, tier, seed):
     for k in range(scripted):
         rep.distinct.add(("s", k))
     rep.extra["scripted_histories_judged"] = scripted
+    rep.extra["scripted_histories_skipped_as_rounding_fragile"] = fragile
     rep.extra["observational_runs_judged"] = n_obs
     rep.extra["exhaustive_part"] = (f"all rate histories of length <= {Lmax} over the alphabet {ALPHA} x max_cycles 1..L x "
                                     f"fitness_error {FES} x early_stopping {ESS}")
@@ -185,7 +196,7 @@ def replay(prop, data):
     if rp.get("kind") == "scripted":
         script, mc, fe, es = rp["case"]
         kind, detail = run_scripted(tuple(script), mc, fe, tuple(es) if es else None)
-        if kind not in ("ok", "skip"):
+        if kind not in ("ok", "skip", "fragile"):
             print(f"[{prop}] replay: {detail}")
             return True
         return False
